@@ -10,12 +10,14 @@ COMMON = dict(src=SRC, env=["vp_alloc.c", "vp_libc.c"], units=["hwloc/bitmap.c",
 PARSE = ["hwloc_backend_synthetic_init", "hwloc_synthetic_parse_attrs", "hwloc_synthetic_set_default_attrs", "hwloc_synthetic_process_indexes", "hwloc_synthetic_free_levels", "hwloc_type_sscanf"]
 HARNESSES = []
 MAXQ = 6
+def init_uw(n):
+    d = dict(COMMON["unwindset"]); d.update({"hwloc_backend_synthetic_init.%d" % k: n for k in range(14)}); d.update({"h_depth.%d" % k: n for k in range(4)}); d.update({"hwloc_synthetic_free_levels.0": n, "strlen.0": 8 * n + 8, "strchr.0": 8 * n + 8, "strcpy.0": 8 * n + 8}); return d
 for ng in range(0, MAXQ + 1):
-    HARNESSES.append(dict(COMMON, name="depth_hook%d_ng%d" % (MAXQ, ng), entry="h_depth", defines={"NG": ng, "HWLOC_VERIF_SYNTHETIC_MAX_DEPTH": MAXQ}, encoded=PARSE,
+    HARNESSES.append(dict(COMMON, name="depth_hook%d_ng%d" % (MAXQ, ng), entry="h_depth", defines={"NG": ng, "HWLOC_VERIF_SYNTHETIC_MAX_DEPTH": MAXQ}, encoded=PARSE, unwindset=init_uw(24),
                           tiers={"quick": {}, "thorough": {}}, witness=True,
                           bounds="level table scaled to %d entries by the guarded hook; %d typed Group levels + final PU number, concrete arities (the whole run is concrete: CBMC acts as a bounds-checking interpreter of the real parser); exhaustive over 0..%d groups" % (MAXQ, ng, MAXQ), cost=10))
 for ng in (122, 123, 124, 125, 126, 127):
-    HARNESSES.append(dict(COMMON, name="depth_real128_ng%d" % ng, entry="h_depth", defines={"NG": ng}, encoded=PARSE, tiers={"thorough": {"unwind": 132, "timeout": 1700}},
+    HARNESSES.append(dict(COMMON, name="depth_real128_ng%d" % ng, entry="h_depth", defines={"NG": ng}, encoded=PARSE, unwindset=init_uw(134), tiers={"thorough": {"unwind": 14, "timeout": 3000}},
                           bounds="the real 128-entry level table; %d typed Group levels + final PU number" % ng, cost=100, fs_array=300, core=(ng in (125, 126))))
 def short_uw(l):
     d = seed_uw(); d.update({k: l + 2 for k in ("strcmp.0", "strncmp.0", "hwloc__type_match.0", "strchr.0", "strspn.0", "strspn.1", "strcspn.0", "strcspn.1", "vp_strto.0", "vp_strto.1", "strncasecmp.0", "strlen.0",
